@@ -242,6 +242,7 @@ func cmdReplay(args []string) {
 	if c.ID == "" {
 		c.ID = "r"
 	}
+	raceReplay = c.Label == "data-race"
 	outs, raw, _ := nativeReplay(pkg, []replayCase{c}, 10*time.Minute)
 	o := outs[c.ID]
 	if reproduced(c, o, raw) {
